@@ -47,6 +47,14 @@ func genC15(r *simrt.Rand, tier string) (Cfg, *Program) {
 	}
 	c, p := generate(r, pf)
 	c.StartPaused = static
+	if r.Chance(35) {
+		// a backend that refuses some dequeues: the refusing queue loses that turn, nothing else
+		for i := range c.Queues {
+			if c.Queues[i].Kind > qkPrio {
+				c.Queues[i].FDeq = pick(r, []int{0, 20, 40})
+			}
+		}
+	}
 	if static {
 		p.Tasks = append(p.Tasks, []Op{{K: opSettle}, {K: opResume}})
 	}
@@ -58,20 +66,23 @@ type c15Disp struct {
 	Q    int
 	Sub  int
 	Task int
+	Fail bool // the chosen queue refused the dequeue: the choice was made, nothing left the queue
 }
 
 func (j *judgeCtx) dispatches() []c15Disp {
 	var out []c15Disp
 	for _, e := range j.r.qevs {
 		if e.K == 2 {
-			out = append(out, c15Disp{e.Seq, e.Q, e.Sub, e.Task})
+			out = append(out, c15Disp{e.Seq, e.Q, e.Sub, e.Task, false})
 		}
 	}
 	for _, q := range j.wd.qs {
 		if q.ad != nil {
 			for _, c := range q.ad.calls {
 				if c.Op == "deq" && c.OK {
-					out = append(out, c15Disp{c.Seq, q.idx, c.Sub, c.Task})
+					out = append(out, c15Disp{c.Seq, q.idx, c.Sub, c.Task, false})
+				} else if c.Op == "deq" && q.cfg.FDeq > 0 {
+					out = append(out, c15Disp{c.Seq, q.idx, -1, c.Task, true})
 				}
 			}
 		}
@@ -150,7 +161,9 @@ func judgeC15(j *judgeCtx) {
 				j.add("C15.a", d.Seq, "a job was taken from queue %d, which the reference bookkeeping says is empty (%v)", d.Q, length)
 				return
 			}
-			length[d.Q]--
+			if !d.Fail {
+				length[d.Q]--
+			}
 			prev = d.Q
 		}
 		return
@@ -227,22 +240,27 @@ func judgeC15(j *judgeCtx) {
 	}
 	// content of every queue over time: +1 at the enqueue record, -1 at the dequeue record
 	type ev struct {
-		seq uint64
-		q   int
-		d   int
+		seq  uint64
+		q    int
+		d    int
+		turn bool // a selection of this queue (successful or refused dequeue)
 	}
 	var evs []ev
 	for _, s := range wd.subs {
 		if j.accepted(s) && s.Enq != 0 {
-			evs = append(evs, ev{s.Enq, j.qOf(s).idx, +1})
+			evs = append(evs, ev{s.Enq, j.qOf(s).idx, +1, false})
 		}
 	}
 	for _, d := range disp {
-		evs = append(evs, ev{d.Seq, d.Q, -1})
+		if !d.Fail {
+			evs = append(evs, ev{d.Seq, d.Q, -1, true})
+		} else {
+			evs = append(evs, ev{d.Seq, d.Q, 0, true}) // the queue had its turn and refused
+		}
 	}
 	for _, s := range wd.subs {
 		if s.Purged != 0 {
-			evs = append(evs, ev{s.Purged, j.qOf(s).idx, -1})
+			evs = append(evs, ev{s.Purged, j.qOf(s).idx, -1, false})
 		}
 	}
 	sort.Slice(evs, func(a, b int) bool { return evs[a].seq < evs[b].seq })
@@ -254,7 +272,7 @@ func judgeC15(j *judgeCtx) {
 			var start uint64
 			in := false
 			for _, e := range evs {
-				if in && e.d < 0 {
+				if in && e.turn {
 					if e.q == a {
 						na++
 					}
@@ -265,7 +283,7 @@ func judgeC15(j *judgeCtx) {
 						// the dequeue record follows the dispatcher's selection by a few steps and an
 						// enqueue record follows the real enqueue: allow one more before reporting
 						if na-nb > 2 || nb-na > 2 {
-							j.add("C15.c", e.seq, "RoundRobin: while queues %d and %d were both non-empty (since %d) they received %d and %d dispatches", a, b, start, na, nb)
+							j.add("C15.c", e.seq, "RoundRobin: while queues %d and %d were both non-empty (since %d) they were selected %d and %d times", a, b, start, na, nb)
 							return
 						}
 					}
